@@ -584,6 +584,7 @@ fn check_cmd(id: &str, tier: &str, verif_seed: u64) -> i32 {
         }
     }
     let mut new_violations = 0;
+    let mut unreproduced = 0;
     let mut known_hit: BTreeMap<String, u64> = BTreeMap::new();
     let mut replays = vec![];
     let _ = std::fs::create_dir_all(format!("{}/replays", crate::out_root()));
@@ -629,8 +630,11 @@ fn check_cmd(id: &str, tier: &str, verif_seed: u64) -> i32 {
                     replays.push(path);
                 }
                 Ok(o) => {
-                    eprintln!("harness error: fresh-process replay of {path} did not reproduce (exit {:?})", o.status.code());
-                    return 2;
+                    // not reported as a violation; the verdict is decided after all signatures have been
+                    // tried (a violation that does replay makes the check fail with exit 1; only if none
+                    // does is this a harness error, exit 2)
+                    eprintln!("harness: fresh-process replay of {path} did not reproduce signature {sig} (exit {:?})", o.status.code());
+                    unreproduced += 1;
                 }
                 Err(e) => {
                     eprintln!("harness error: cannot spawn replay: {e}");
@@ -654,6 +658,9 @@ fn check_cmd(id: &str, tier: &str, verif_seed: u64) -> i32 {
     );
     if new_violations > 0 {
         1
+    } else if unreproduced > 0 {
+        eprintln!("harness error: {unreproduced} candidate violation(s) did not reproduce in a fresh process and none did");
+        2
     } else {
         0
     }
